@@ -248,6 +248,28 @@ func buildInputCases(tape *Tape) []inputCase {
 		_, e := c.Build()
 		return e
 	}))
+	add("C15", "C15.nopanic", "constructor whose error result has a concrete, non-nillable type (errno style), singleton", xAny, 0, coll(func(c godi.Collection) error {
+		if e := c.AddSingleton(func() (*T1, inputErrno) { return &T1{}, 0 }); e != nil {
+			return e
+		}
+		p, e := c.Build()
+		if e == nil {
+			_, e = p.Get(reflect.TypeOf((*T1)(nil)))
+			p.Close()
+		}
+		return e
+	}))
+	add("C15", "C15.nopanic", "constructor whose error result has a concrete, non-nillable type (errno style), scoped, failing", xAny, 0, coll(func(c godi.Collection) error {
+		if e := c.AddScoped(func() (*T1, inputErrno) { return nil, 5 }); e != nil {
+			return e
+		}
+		p, e := c.Build()
+		if e == nil {
+			_, e = p.Get(reflect.TypeOf((*T1)(nil)))
+			p.Close()
+		}
+		return e
+	}))
 	add("C15", "C15.nopanic", "constructor returning a channel", xErr, 0, coll(func(c godi.Collection) error { return c.AddSingleton(func() chan int { return nil }) }))
 	add("C15", "C15.nopanic", "constructor returning unsafe.Pointer", xErr, 0, coll(func(c godi.Collection) error { return c.AddSingleton(func() unsafe.Pointer { return nil }) }))
 	add("C15", "C15.nopanic", "constructor taking a channel", xErr, 0, coll(func(c godi.Collection) error { return c.AddSingleton(func(ch chan int) *T0 { return &T0{} }) }))
@@ -599,3 +621,8 @@ func (e *inputsEngine) Minimise(prop, tier string, idx int, tapes [nStreams][]in
 		return out, out.Describe
 	})
 }
+
+// inputErrno: an error type that is not an interface, pointer or other nillable kind.
+type inputErrno uintptr
+
+func (e inputErrno) Error() string { return fmt.Sprintf("errno %d", uintptr(e)) }
